@@ -112,7 +112,11 @@ def main():
         samples = stats.runner_samples[:240]
         t_corr = time.time() - t1
         t2 = time.time()
-        kc = core.kernel_crosscheck(pid, samples, st_expr, imports)
+        with core.build_lock():
+            # another check running in the same tree may have rebuilt part of the development since this one built the runner
+            # (only when the source tables changed in between): make sure Runner.vo and what it loads are consistent, under the lock
+            core.make(["theories/Runner.vo"])
+            kc = core.kernel_crosscheck(pid, samples, st_expr, imports)
         t_kc = time.time() - t2
         if not kc[1]:
             broken.append({"file": "runner/driver.ml", "theorem": "kernel cross-check of the extracted runner", "message": kc[2]})
